@@ -18,9 +18,70 @@ import z3
 CVC5 = "/usr/bin/cvc5"
 
 
-def to_smt2(ob, watches=None):
-    s = z3.Solver()
+def _subterm_ids(e, acc, consts):
+    stack = [e]
+    while stack:
+        x = stack.pop()
+        i = x.get_id()
+        if i in acc:
+            continue
+        acc.add(i)
+        if z3.is_app(x):
+            if x.num_args() == 0 and x.decl().kind() == z3.Z3_OP_UNINTERPRETED and "!" in x.decl().name():
+                consts.add(i)
+            stack.extend(x.children())
+
+
+def select_facts(ob):
+    """cone of influence: facts with a trigger term are kept when the trigger occurs in the
+    cone; other facts when all their *fresh* constants (generated names contain '!': generic
+    indices of other obligations, skolems) occur in it.  Dropping facts is
+    sound for 'proved'; a 'refuted' on the filtered query is re-checked on the full one."""
+    from .terms import TRIGGERS
+    cone, consts = set(), set()
+    roots = list(ob.pc)
+    if isinstance(ob.goal, z3.ExprRef):
+        roots.append(ob.goal)
+    for (lbl, t) in ((ob.meta or {}).get("watches") or []):
+        pass
+    for r in roots:
+        _subterm_ids(r, cone, consts)
+    info = []
     for f in ob.facts:
+        ids, cs = set(), set()
+        _subterm_ids(f, ids, cs)
+        info.append((f, ids, cs, TRIGGERS.get(f.get_id())))
+    chosen = [False] * len(info)
+    changed = True
+    while changed:
+        changed = False
+        for k, (f, ids, cs, trig) in enumerate(info):
+            if chosen[k]:
+                continue
+            if trig is not None:
+                ok = trig.get_id() in cone
+            else:
+                ok = cs <= consts
+            if ok:
+                chosen[k] = True
+                cone |= ids
+                consts |= cs
+                changed = True
+    return [info[k][0] for k in range(len(info)) if chosen[k]]
+
+
+def tier_facts(ob, maxtier):
+    from .terms import TIERS
+    return [f for f in ob.facts if TIERS.get(f.get_id(), 2) <= maxtier]
+
+
+def to_smt2(ob, watches=None, filtered=False, maxtier=None):
+    s = z3.Solver()
+    if maxtier is not None:
+        facts = tier_facts(ob, maxtier)
+    else:
+        facts = select_facts(ob) if filtered else ob.facts
+    for f in facts:
         s.add(f)
     for f in ob.pc:
         s.add(f)
@@ -105,10 +166,12 @@ def _solve_z3(text, timeout_ms, tactic=None):
     return "unknown", s.reason_unknown()
 
 
-def _solve_split(text, timeout_ms, max_conds=6):
+def _solve_split(text, timeout_ms, max_conds=8):
     """case split on the conditions of term-level ite's (np.where/minimum/maximum/abs)"""
     ctx = z3.Context()
     asserts = z3.parse_smt2_string(text, ctx=ctx)
+    # canonical atoms (x <= 0 and 0 >= x become the same term) so that one split decides both
+    asserts = [z3.simplify(f, arith_lhs=True) for f in asserts]
     conds = _collect_ite_conds(list(asserts))
     # only split on atoms that are not themselves containing ite's (leaf conditions first)
     leaf = [c for c in conds if not _collect_ite_conds([c])]
@@ -134,6 +197,19 @@ def _solve_split(text, timeout_ms, max_conds=6):
             return "proved", None
         if k == len(conds):
             ncase += 1
+            if r == z3.unknown:
+                try:
+                    s3 = z3.Then("simplify", "solve-eqs", "purify-arith", "elim-term-ite", "qfnra-nlsat", ctx=ctx).solver()
+                    s3.set("timeout", max(1000, int((t_end - time.time()) * 1000 / 4)))
+                    for f in forms:
+                        s3.add(f)
+                    for l in lits:
+                        s3.add(l)
+                    r3 = s3.check()
+                    if r3 == z3.unsat:
+                        return "proved", None
+                except z3.Z3Exception:
+                    pass
             if r == z3.sat:
                 m = s.model()
                 vals = {d.name(): _val_str(m[d]) for d in m.decls() if d.arity() == 0}
@@ -141,7 +217,7 @@ def _solve_split(text, timeout_ms, max_conds=6):
             return "unknown", s.reason_unknown()
         c = conds[k]
         for val, litv in ((T_, c), (F_, z3.Not(c))):
-            nf = [z3.simplify(z3.substitute(f, (c, val))) for f in forms]
+            nf = [z3.simplify(z3.substitute(f, (c, val)), arith_lhs=True) for f in forms]
             st, info = rec(k + 1, nf, lits + [litv])
             if st != "proved":
                 return st, info
@@ -181,6 +257,8 @@ def _alarm(signum, frame):
 def solve_task(task):
     """worker entry: (name, smt2 text, timeout seconds, options) -> result dict"""
     name, text, timeout, opts = task
+    full_text = opts.get("full_text")
+    tier_texts = opts.get("tier_texts") or []
     t0 = time.time()
     ms = int(timeout * 1000)
     log = []
@@ -190,7 +268,17 @@ def solve_task(task):
         signal.alarm(int(timeout * 4) + 30)
         try:
             steps = opts.get("steps") or ["z3quick", "split", "nlsat", "z3", "cvc5"]
-            for step in steps:
+            # cheap attempts with few hypotheses first (sound: fewer facts can only lose proofs)
+            for tk, ttext in enumerate(tier_texts):
+                ts = time.time()
+                st, inf = _solve_z3(ttext, max(1000, ms // 10))
+                if st == "unknown":
+                    st, inf = _solve_split(ttext, max(2000, ms // 5))
+                log.append(("z3-tier%d" % tk, st, round(time.time() - ts, 3)))
+                if st == "proved":
+                    status, info, backend = st, inf, "z3"
+                    break
+            for step in (steps if status != "proved" else []):
                 ts = time.time()
                 if step == "z3":
                     st, inf = _solve_z3(text, ms)
@@ -213,6 +301,19 @@ def solve_task(task):
                 else:
                     continue
                 log.append((bk, st, round(time.time() - ts, 3)))
+                if st in ("refuted", "refuted-cvc5") and full_text is not None:
+                    # the query was filtered by cone of influence: confirm on the full one
+                    st2, inf2 = _solve_z3(full_text, ms)
+                    log.append(("z3-full", st2, round(time.time() - ts, 3)))
+                    if st2 == "unknown":
+                        st2s, inf2s = _solve_split(full_text, ms * 2)
+                        log.append(("z3-full-split", st2s, round(time.time() - ts, 3)))
+                        if st2s != "unknown":
+                            st2, inf2 = st2s, inf2s
+                    st, inf = st2, inf2
+                    if st == "unknown":
+                        status, info = "unknown", "filtered query sat, full query unknown"
+                        break
                 if st in ("proved", "refuted"):
                     status, info, backend = st, inf, bk
                     break
